@@ -327,6 +327,8 @@ Init == /\ stopAt \in StopAts
         /\ ppc = [p \in Producers |-> "idle"] /\ pidx = [p \in Producers |-> 1]
         /\ pres = [p \in Producers |-> FALSE] /\ padm = [p \in Producers |-> FALSE]
         /\ pkind \in [Producers -> Kinds]
+        \* replay: which of two blocked senders a notification wakes first cannot be steered through the gates
+        /\ (Replay => Cardinality({p \in Producers : pkind[p] = "block"}) <= 1)
         /\ notified = {} /\ spc = "idle"
         /\ accepted = <<>> /\ delivered = <<>> /\ dropped = 0 /\ cycle = 0 /\ stopIssued = FALSE /\ bad = "" /\ hist = <<>>
 
